@@ -96,3 +96,29 @@ func ref_Paths(src *Src) *Dst {
 	dst.Title = src.Title()
 	return dst
 }
+
+// ViaPtr: a source path through a nil pointer has no value to copy: the destination field keeps
+// its previous value (and nothing panics).
+func ref_ViaPtr(src *Src) *Dst {
+	dst := &Dst{}
+	dst.ID = int64(src.ID)
+	if src.Work != nil {
+		dst.Name = src.Work.City
+	}
+	dst.Status = src.Status.String()
+	dst.Age = int64(src.Age)
+	if src.Work != nil {
+		dst.Code = Upper(src.Work.City)
+	}
+	dst.Ptr = src.Ptr
+	dst.Home.City = src.Home.City
+	dst.Home.Zip = int64(src.Home.Zip)
+	dst.Work = src.Work
+	dst.Geo = src.Geo
+	dst.Ratio = src.Ratio
+	dst.OK = src.OK
+	if src.Geo != nil {
+		dst.Count = src.Geo.Lat
+	}
+	return dst
+}
